@@ -4,6 +4,7 @@ import (
 	"bytes"
 	"crypto"
 	"fmt"
+	"io"
 	"io/ioutil"
 	"os"
 	"strings"
@@ -70,6 +71,11 @@ func entityID(e *openpgp.Entity) string {
 	}
 	return hx(fmt.Sprintf("%X", e.PrimaryKey.Fingerprint))
 }
+
+// failingReader fails with an error that is not io.EOF
+type failingReader struct{}
+
+func (failingReader) Read([]byte) (int, error) { return 0, fmt.Errorf("connection reset") }
 
 func init() {
 	ops["csinit"] = func(a []string) string {
@@ -161,6 +167,29 @@ func init() {
 		aw.Close()
 		doc.WriteString("\n")
 		return hx(doc.String())
+	}
+	// csafterfail keyring first second: the first read delivers `first` completely and then FAILS (a network reader that
+	// breaks off); it must fail.  The second read, of `second`, must be judged on its own: a failed read leaves nothing behind.
+	ops["csafterfail"] = func(a []string) string {
+		kr := keyringOf(arg(a, 0))
+		one := func(src io.Reader) string {
+			r, err := control.NewParagraphReader(src, kr)
+			if err != nil {
+				return "err"
+			}
+			ps, err := r.All()
+			if err != nil {
+				return "ok-then-read-error"
+			}
+			sg := "-"
+			if r.Signer() != nil {
+				sg = entityID(r.Signer())
+			}
+			return "ok signer=" + sg + " " + showParas(ps)
+		}
+		first := one(io.MultiReader(strings.NewReader(arg(a, 1)), failingReader{}))
+		second := one(strings.NewReader(arg(a, 2)))
+		return first + " ## " + second
 	}
 	// csseq (keyring input)* -> ONE EntityList variable whose contents are replaced in place before each read (the
 	// reader is always given the same pointer); each read answers for the keyring as it is at that moment
